@@ -305,7 +305,7 @@ func TestVerif_C29_round(t *testing.T) {
 	for k, v := range cls {
 		r.ClassN(k, v)
 	}
-	if r.R.NShards == 1 {
+	if r.R.NShards == 1 && r.R.NViolations == 0 { // classes count cases on which the oracle held; a violation is the more useful report
 		r.NeedClass("D:updateParticipantConfig:config-change-block:other-config-installed:N=4,C=1->N=7,C=2")
 		r.NeedClass("D:updateParticipantConfig:ordinary-block:N=7,C=2->N=7,C=2")
 		r.NeedClass("D:buildParticipantConfig:config-change-block:announced-config-installed:N=10,C=3->N=10,C=3")
